@@ -183,6 +183,10 @@ pub struct NodeSpec {
     pub kind: Kind,
     pub params: Params,
     pub mode: Mode,
+    /// the subject is built by `Default::default()`; `params` then hold what the default instance reports
+    /// through its accessors, and the reference side is `new(params)`
+    #[serde(default)]
+    pub dflt: bool,
 }
 
 /// One tick of market data. Scalar mode feeds `c`.
@@ -588,7 +592,59 @@ pub fn build(kind: Kind, p: &Params) -> Result<Box<dyn Sut>, String> {
 }
 
 pub fn build_spec(s: &NodeSpec) -> Box<dyn Sut> {
+    if s.dflt {
+        return build_default(s.kind);
+    }
     build(s.kind, &s.params).expect("harness only generates valid parameters")
+}
+
+/// the reference side: always through the public `new`
+pub fn build_ref(s: &NodeSpec) -> Box<dyn Sut> {
+    build(s.kind, &s.params).expect("harness only generates valid parameters")
+}
+
+/// `Default::default()` of the indicator type
+pub fn build_default(kind: Kind) -> Box<dyn Sut> {
+    fn d<I: Ind + Default>() -> Box<dyn Sut> {
+        Box::new(W(I::default()))
+    }
+    match kind {
+        Kind::Ema => d::<ExponentialMovingAverage>(),
+        Kind::Sma => d::<SimpleMovingAverage>(),
+        Kind::Wma => d::<WeightedMovingAverage>(),
+        Kind::Sd => d::<StandardDeviation>(),
+        Kind::Mad => d::<MeanAbsoluteDeviation>(),
+        Kind::Rsi => d::<RelativeStrengthIndex>(),
+        Kind::Min => d::<Minimum>(),
+        Kind::Max => d::<Maximum>(),
+        Kind::FastStoch => d::<FastStochastic>(),
+        Kind::SlowStoch => d::<SlowStochastic>(),
+        Kind::Tr => d::<TrueRange>(),
+        Kind::Atr => d::<AverageTrueRange>(),
+        Kind::Macd => d::<MovingAverageConvergenceDivergence>(),
+        Kind::Ppo => d::<PercentagePriceOscillator>(),
+        Kind::Cci => d::<CommodityChannelIndex>(),
+        Kind::Er => d::<EfficiencyRatio>(),
+        Kind::Bb => d::<BollingerBands>(),
+        Kind::Ce => d::<ChandelierExit>(),
+        Kind::Kc => d::<KeltnerChannel>(),
+        Kind::Roc => d::<RateOfChange>(),
+        Kind::Mfi => d::<MoneyFlowIndex>(),
+        Kind::Obv => d::<OnBalanceVolume>(),
+    }
+}
+
+/// Spec of a `Default`-built subject: the parameters are read from the default instance's own accessors
+/// (so the check follows a legitimate change of the defaults); None for the kinds whose parameters
+/// cannot be read back (SlowStochastic, MACD, PPO have no Period).
+pub fn default_spec(kind: Kind, mode: Mode) -> Option<NodeSpec> {
+    let d = build_default(kind);
+    let params = match kind.n_periods() {
+        0 => Params::new(1, 1, 1, 2.0),
+        1 => Params::new(d.period()?, 1, 1, d.multiplier().unwrap_or(2.0)),
+        _ => return None,
+    };
+    Some(NodeSpec { kind, params, mode, dflt: true })
 }
 
 /// serialize / deserialize a DataItem through bincode
